@@ -8,6 +8,7 @@ pub mod tear;
 pub mod stream;
 pub mod io;
 pub mod gm;
+pub mod hotplug;
 
 pub struct RunInfo {
     /// non-trivial by the scenario's stated rule
@@ -56,6 +57,8 @@ pub fn all_scenarios() -> Vec<&'static dyn Scenario> {
     v.push(&gm::GM);
     v.push(&gm::DIRTY_GM);
     v.push(&mem::DIRTY_SLICE);
+    v.push(&hotplug::SEQ);
+    v.push(&hotplug::CONC);
     v
 }
 
@@ -157,6 +160,26 @@ pub fn checks() -> Vec<Check> {
         });
         let _ = what;
     }
+    for prop in ["C10", "C12"] {
+        v.push(Check {
+            prop,
+            parts: vec![Part { scen: &hotplug::SEQ, xen: false, quick: 60_000, thorough: 3_000_000 }],
+            rule: "runs are seeded histories of up to 25 handle operations (create anonymous / file-backed / externally mapped regions incl. overlapping, adjacent, duplicate-start and top-of-address-space bases and injected mmap failures; from_regions / from_arc_regions; insert_region; remove_region with right and wrong size or address; clone; publish into a GuestMemoryAtomic; snapshot; into_inner; replace; drop of any live handle in any order), every earlier handle kept alive and re-checked after each step against a model of the region lists and of the process address space (mmap/munmap seam); distinct = distinct event-log hash; non-trivial = at least one request accepted, one refused and one handle dropped mid-history",
+            assumptions: COMMON_ASSUMPTIONS.to_vec(),
+            real: vec!["vm_memory GuestMemoryMmap / GuestRegionMmap / MmapRegion (build, build_raw, Drop) / GuestMemoryAtomic (compiled from /repo working tree)", "arc-swap, std Arc", "kernel mmap/munmap/memfd when the injector passes through"],
+            stub: vec!["injected mmap failures", "order and instant of every drop (decided by the tape)"],
+            needs_seam_events: true,
+        });
+    }
+    v.push(Check {
+        prop: "C11",
+        parts: vec![Part { scen: &hotplug::CONC, xen: false, quick: 60_000, thorough: 3_000_000 }],
+        rule: "runs are 1-3 reader coroutines (memory(), clone the guard, into_inner, re-observe what they hold, drop) and 1-2 updater coroutines (lock, snapshot current, derive by insert/remove of a uniquely tagged region, write a generation tag, replace - or give the lock back without replacing) on one GuestMemoryAtomic and its clones, switched before every ArcSwap load/store, at every lock attempt and at every unlock; history oracle stamped with the global event sequence number: wholeness, stability, recency, no lost replacement, no deadlock; distinct = distinct event-log hash; non-trivial = a context switch inside an operation, at least one replacement and one observation",
+        assumptions: COMMON_ASSUMPTIONS.to_vec(),
+        real: vec!["vm_memory::atomic (GuestMemoryAtomic, load guard, exclusive guard), GuestMemoryMmap (compiled from /repo working tree)", "arc-swap and std::sync::Mutex (real code, executed atomically between yield points; blocking replaced by a yielding try_lock loop)"],
+        stub: vec!["thread scheduling and blocking on the update mutex (coroutines)"],
+        needs_seam_events: true,
+    });
     v
 }
 
